@@ -29,7 +29,7 @@ NameOf(e) == IF e = Nil THEN "" ELSE e.d
 InitOf(r) == [n \in DOMAIN r.c |-> r.c[n].d]
 
 SInit == /\ Init /\ hist = <<>> /\ pc = "pick" /\ lastReq = <<>>
-         /\ start = [init |-> InitOf(root), max |-> m.max]
+         /\ start = [init |-> InitOf(root), max |-> m.max, maxfile |-> m.maxfile]
 
 Pick == /\ pc = "pick" /\ Len(hist) < NOps
         /\ \E i \in DOMAIN Menu : pc' = Menu[i]
@@ -62,7 +62,7 @@ SExt == /\ pc = "Ext" /\ UNCHANGED lastReq
                                      ELSE [op |-> "ExtWrite", path |-> <<n>>, c |-> v.d])
 \* the walk is complete: print it (evaluated once per walk, when this is the only enabled step)
 Done == /\ pc = "pick" /\ Len(hist) = NOps
-        /\ PrintT(<<"BEHAVIOUR", ToJson([init |-> start.init, max |-> start.max, ops |-> hist])>>)
+        /\ PrintT(<<"BEHAVIOUR", ToJson([init |-> start.init, max |-> start.max, maxfile |-> start.maxfile, ops |-> hist])>>)
         /\ pc' = "done" /\ UNCHANGED <<m, root, rcache, store, recv, bad, hist, start, lastReq>>
 Stop == pc = "done" /\ UNCHANGED svars
 
